@@ -62,6 +62,7 @@ func main() {
 			"RANDOM: trees of depth<=5, width<=4 (quick 3000, thorough 80000) x 4 exchanges steering filter conditions true and false, request then response; " +
 			"invalid configurations (unknown name, two keys, no key, scope outside {request,response}, scope unsupported by the node, JSON syntax damaged at a chosen nesting depth) " +
 			"must be rejected by parse.FromJSON and answered 400; reconfiguration histories through martianhttp.Modifier.ServeHTTP (accepted / rejected POSTs interleaved with traffic), " +
+			"including re-POSTs of the active configuration up to whitespace (a fixed quarter of the histories) after traffic advanced the state of counting probes and after the programmatic SetRequestModifier/SetResponseModifier replaced a side, " +
 			"sequentially and concurrently with traffic under the race detector (every call's effect must be wholly that of a configuration active during the call); " +
 			"concurrent configurators: rounds in which 2-4 goroutines POST distinct valid configurations at the same moment (quick 30000 rounds, 10000 of them in the race build; thorough 300000), after all returned an exchange must show the request AND response effect of ONE of them. " +
 			"Query strings carry parameter names/values that need escaping (tags[], 'user id', 'x y'), each component encoded in a randomly chosen legal way (%XX upper/lower hex, '+', needless escapes); the reference decodes them itself. " +
